@@ -269,6 +269,8 @@ def run(tier, seed):
     outcomes = 0
     capped = False
     for unit, (status, res) in zip(units, run_pool("vx.checks.c14", "work", units, task_timeout=7200), strict=True):
+        if status == "skipped":
+            continue
         if status != "ok":
             choices = None
             try:
